@@ -134,7 +134,14 @@ pub fn run(args: &[String]) {
                         let mut ks: Vec<u16> = e.isotopes.keys().copied().collect(); ks.sort();
                         let mut t = match rng.below(4) { 0 => sym.clone(), 1 => format!("{}[{}]", sym, rng.pick(&ks)), 2 => format!("{}[0{}]", sym, rng.pick(&ks)),
                                                          _ => format!("{}[{}]", sym, rng.below(70000)) };
-                        if rng.chance(1, 2) {
+                        if rng.chance(1, 8) {
+                            // one letter replaced by a non-ASCII character whose Unicode case mapping (or appearance) lands on it: never a table symbol
+                            let twins: [(char, char); 10] = [('K', '\u{212A}'), ('k', '\u{212A}'), ('S', '\u{017F}'), ('s', '\u{017F}'), ('s', '\u{00DF}'),
+                                                             ('I', '\u{0131}'), ('i', '\u{0131}'), ('i', '\u{0130}'), ('H', '\u{FF28}'), ('C', '\u{0421}')];
+                            let cs: Vec<char> = t.chars().collect();
+                            let hits: Vec<(usize, char)> = cs.iter().enumerate().flat_map(|(q, c)| twins.iter().filter(move |(a, _)| a == c).map(move |(_, r)| (q, *r))).collect();
+                            if !hits.is_empty() { let (q, r) = *rng.pick(&hits); t = cs.iter().enumerate().map(|(i, c)| if i == q { r } else { *c }).collect(); }
+                        } else if rng.chance(1, 2) {
                             let mut cs: Vec<char> = t.chars().collect();
                             let pos = rng.below(cs.len() as u64 + 1) as usize;
                             match rng.below(3) { 0 => { if !cs.is_empty() { cs.remove(pos.min(cs.len() - 1)); } } 1 => cs.insert(pos, *rng.pick(&junk)),
